@@ -54,9 +54,11 @@ async def segment_fetcher(app: NDNApp, name: NonStrictName, timeout=4000, retry_
         yield content
         return
     # If it's segmented
+    # FinalBlockId is optional per Data packet: remember it once a segment has announced it
+    final_id = meta.final_block_id
     if Component.to_number(name[-1]) == 0:
         yield content
-        if meta.final_block_id == name[-1]:
+        if final_id == name[-1]:
             return
         seg_no = 1
     else:
@@ -69,6 +71,8 @@ async def segment_fetcher(app: NDNApp, name: NonStrictName, timeout=4000, retry_
         name = name[:-1] + [Component.from_segment(seg_no)]
         name, meta, content = await retry(False)
         yield content
-        if meta.final_block_id == name[-1]:
+        if meta.final_block_id is not None:
+            final_id = meta.final_block_id
+        if final_id == name[-1]:
             return
         seg_no += 1
